@@ -11,7 +11,7 @@
    which the model falsifies (three refutations, one per guard clause); it is proved under
    dtd_guard = guard_seq && guard_or (and guard_ns for names), with a non-vacuity example. *)
 From Coq Require Import NArith List Bool String.
-From XV Require Import Base.Str Spec.Cm Spec.Dtd Model.Dtd Model.DtdCorr Proofs.Cm Proofs.Dtd.
+From XV Require Import Base.Str Spec.Cm Spec.Dtd Model.Dtd Model.DtdCorr Proofs.Cm Proofs.CmMatch Proofs.Dtd.
 Import ListNotations.
 Local Open Scope string_scope.
 
@@ -43,6 +43,15 @@ Theorem C16_attribute_defaults_sound : forall ds fs, check_attrs ds fs = true ->
     exists f, find_afield fs (ad_name d) = Some f /\ afield_roundtrip f present = Some (effective d present).
 Proof. exact check_attrs_sound. Qed.
 Print Assumptions C16_attribute_defaults_sound.
+
+Theorem C16_matches_correct : forall w c, occ_ok c = true -> (matches c w = true <-> lang c w).
+Proof. exact matches_correct. Qed.
+Print Assumptions C16_matches_correct.
+
+Theorem C16_rejected_word_sound : forall c m w,
+  occ_ok c = true -> rejected_word c m = Some w -> lang c w /\ accepts_word m w = false.
+Proof. exact rejected_word_sound. Qed.
+Print Assumptions C16_rejected_word_sound.
 
 (* ---- Part 2: the DTD mapper *)
 Theorem C16_dtd_capacity : forall c dc m, parse_content c = Some dc -> cm_of_raw c = Some m -> dtd_guard c = true ->
